@@ -50,10 +50,17 @@ Definition new_evaluator (src : bytes) (fns : list func) : M unit :=
 Definition stray {A} (src : bytes) (tok : option token) (r : res A) : M A :=
   match r with
   | Sig SigExit => fail (Sig SigExit)
-  | Sig _ =>
+  | Sig sg =>
+    let* st0 := get_st in
+    (* next/break/continue are reported where they were executed (e.signalToken);
+       the caller computes the fallback token first, as Go evaluates the argument *)
     match tok with
-    | Some t => rt_error src t
     | None => fail Panic                  (* StatementReturn{nil}.Token() *)
+    | Some t =>
+      match sg, last_signal_token (io st0) with
+      | SigReturn, _ | _, None => rt_error src t
+      | _, Some t' => rt_error src t'
+      end
     end
   | other => reraise other
   end.
